@@ -123,6 +123,32 @@ pub broadcast proof fn lemma_clause_of_node(atom: Atom, left: Rc<Bdd>, middle: R
 pub open spec fn added_from(before: Seq<Conjunction>, after: Seq<Conjunction>, b: Bdd, pos: Seq<Atom>, neg: Seq<Atom>) -> bool {
     forall|k: int| before.len() <= k < after.len() ==> clause_of(b, pos, neg, conj_view(#[trigger] after[k]))
 }
+// the clause c occurs in d at or after position `from`
+pub open spec fn has_clause(d: Seq<Conjunction>, from: int, c: ClauseView) -> bool {
+    exists|k: int| 0 <= k && from <= k < d.len() && conj_view(#[trigger] d[k]) == c
+}
+pub broadcast proof fn lemma_has_clause_grows(a: Seq<Conjunction>, b: Seq<Conjunction>, from: int, c: ClauseView)
+    requires #[trigger] a.is_prefix_of(b), #[trigger] has_clause(a, from, c)
+    ensures has_clause(b, from, c)
+{
+    let k = choose|k: int| 0 <= k && from <= k < a.len() && conj_view(#[trigger] a[k]) == c;
+    lemma_prefix_index(a, b, k);
+    assert(a.len() <= b.len());
+    assert(0 <= k && from <= k < b.len() && conj_view(b[k]) == c);
+}
+pub broadcast proof fn lemma_has_clause_from(d: Seq<Conjunction>, from: int, from2: int, c: ClauseView)
+    requires #[trigger] has_clause(d, from, c), from2 <= from
+    ensures #[trigger] has_clause(d, from2, c)
+{
+    let k = choose|k: int| 0 <= k && from <= k < d.len() && conj_view(#[trigger] d[k]) == c;
+    assert(0 <= k && from2 <= k < d.len() && conj_view(d[k]) == c);
+}
+pub broadcast proof fn lemma_has_clause_last(d: Seq<Conjunction>, x: Conjunction, from: int, c: ClauseView)
+    requires from <= d.len(), conj_view(x) == c
+    ensures #[trigger] has_clause(d.push(x), from, c)
+{
+    assert(conj_view(d.push(x)[d.len() as int]) == c);
+}
 pub broadcast proof fn lemma_prefix_index<A>(a: Seq<A>, b: Seq<A>, k: int)
     requires #[trigger] a.is_prefix_of(b), 0 <= k < a.len()
     ensures a[k] == #[trigger] b[k]
